@@ -152,6 +152,16 @@ func panicScenario(mode string, big bool) *Desc {
 	return d
 }
 
+// panicChannelScenario: panic around channel up / down and their chord (the pair reset changes the channel as well)
+func panicChannelScenario(mode string) *Desc {
+	d := base("panic-channel-chord", mode)
+	d.Channel = 2
+	d.Mappings = []MapDesc{{Name: "M0", Keys: km{K1: {60, 0}, K4: {60, 1}}}}
+	acts(d, PA, "panic", CU, "channel_up", CD, "channel_down")
+	d.ChSet = []int{0, 1, 2}
+	return d
+}
+
 // panicAxisScenario: panic bound to a hat (both directions), interleaved with CC-learning, channel changes and a held note
 func panicAxisScenario(mode string) *Desc {
 	d := base("panic-axis", mode)
@@ -205,6 +215,20 @@ func actionScenarios(big bool) []*Desc {
 	d.OctLo, d.OctHi, d.SemLo, d.SemHi = 0, 2, -2, 0
 	d.ChSet = []int{0, 1, 2, 3}
 	out = append(out, d)
+	// two keys bound to the same action (no opposite action in the alphabet, so "a pair" stays unambiguous):
+	// every press moves the value by exactly one, also while the other key of that action is still held
+	for v := 0; v < 2; v++ {
+		d = base(fmt.Sprintf("actions-two-keys-one-action-%d", v), "off")
+		d.Mappings = []MapDesc{{Name: "M0", Keys: km{K1: {60, 0}}}, {Name: "M1", Keys: km{K1: {61, 0}}}, {Name: "M2", Keys: km{K1: {62, 0}}}}
+		if v == 0 {
+			acts(d, OU, "octave_up", OD, "octave_up", MU, "mapping_up", MD, "mapping_up")
+		} else {
+			acts(d, SD, "semitone_down", SU, "semitone_down", CU, "channel_up", CD, "channel_up")
+		}
+		d.OctLo, d.OctHi, d.SemLo, d.SemHi = 0, 2, -2, 0
+		d.ChSet = []int{0, 1, 2}
+		out = append(out, d)
+	}
 	return out
 }
 
@@ -349,6 +373,8 @@ func jobsFor(prop, tier string) []job {
 		}
 		add(panicAxisScenario("interrupt"), false, cap, "panic")
 		add(panicAxisScenario("no_repeat"), false, cap, "panic")
+		add(panicChannelScenario("interrupt"), false, cap, "panic")
+		add(panicChannelScenario("off"), false, cap, "panic")
 	case "C14":
 		for _, d := range exitScenarios(big) {
 			add(d, true, cap, "exit")
